@@ -66,7 +66,7 @@ addto := (x: mut int, k: int) -> int { return x += k };
 "#;
 
 pub const CELLS: &[CellSpec] = &[
-    CellSpec { name: "c0", kind: Kind::Int, paths: &["c0", "a[0]", "a[1]", "t.1", "s.g", "g()", "idf(c0)", "viaarr([c0, m1])", "viaarr(a)"], init: Val::Int(0) },
+    CellSpec { name: "c0", kind: Kind::Int, paths: &["c0", "a[0]", "a[1]", "t.1", "s.g", "g()", "idf(c0)", "viaarr([c0, m1])", "viaarr(a)", "([c0] + [m1])[0]", "[c0; 2][1]", "([c0]~ $])[0]", "struct{q := c0}.q", "(c0, 1).0", "[[c0]][0][0]", "a[-1]"], init: Val::Int(0) },
     CellSpec { name: "c1", kind: Kind::Float, paths: &["c1", "t.0"], init: Val::Float(0.5) },
     CellSpec { name: "c2", kind: Kind::Bool, paths: &["c2"], init: Val::Bool(true) },
     CellSpec { name: "c3", kind: Kind::Str, paths: &["c3", "t.2", "s.f"], init: Val::Str(String::new()) },
@@ -101,8 +101,9 @@ pub enum OpKind {
     BumpViaRhs,
     /// pull from the shared array iterator
     Pull,
-    /// `x := mk(); y := mk(); x += 1; (*x, *y, x == y)`
-    MkFresh,
+    /// two evaluations of a `mut` expression give two independent cells, in four syntactic
+    /// contexts (function result, array literal, loop body, closure factory); all yield (1, 0, false)
+    MkFresh(u8),
     /// re-establish / query the self-referential cell
     SelfShow,
     SelfSet(Val),
@@ -153,7 +154,12 @@ impl Op {
             OpKind::SameCell(c2, p2) => format!("{p} == {}", path_src(*c2, *p2)),
             OpKind::BumpViaRhs => format!("{p} += wr()"),
             OpKind::Pull => "it()".to_string(),
-            OpKind::MkFresh => "{ x := mk(); y := mk(); x += 1; (*x, *y, x == y) }".to_string(),
+            OpKind::MkFresh(v) => match v % 4 {
+                0 => "{ x := mk(); y := mk(); x += 1; (*x, *y, x == y) }".to_string(),
+                1 => "{ p := [mut 0, mut 0]; p[0] += 1; (*p[0], *p[1], p[0] == p[1]) }".to_string(),
+                2 => "{ acc := mut [mut int] []; for i in [1, 2]~ { acc += [mut 0] }; q := *acc; q[0] += 1; (*q[0], *q[1], q[0] == q[1]) }".to_string(),
+                _ => "{ mkc := () -> () -> mut int { c := mut 0; return () -> mut int { return c } }; g1 := mkc(); g2 := mkc(); g1() += 1; (*g1(), *g2(), g1() == g2()) }".to_string(),
+            },
             OpKind::SelfShow => "std.convert.to_string(selfc)".to_string(),
             OpKind::SelfSet(v) => format!("selfc = {}", lit(v)),
             OpKind::SelfTie => "{ selfc = selfc; 0 }".to_string(),
@@ -207,7 +213,7 @@ fn kind_json(k: &OpKind) -> Value {
         OpKind::SameCell(c, p) => json!({"same": [c, p]}),
         OpKind::BumpViaRhs => json!("bump_via_rhs"),
         OpKind::Pull => json!("pull"),
-        OpKind::MkFresh => json!("mk_fresh"),
+        OpKind::MkFresh(v) => json!({"mk_fresh": v}),
         OpKind::SelfShow => json!("self_show"),
         OpKind::SelfSet(v) => json!({"self_set": val_json(v)}),
         OpKind::SelfTie => json!("self_tie"),
@@ -224,7 +230,7 @@ fn kind_from_json(v: &Value) -> OpKind {
             "show" => OpKind::Show,
             "bump_via_rhs" => OpKind::BumpViaRhs,
             "pull" => OpKind::Pull,
-            "mk_fresh" => OpKind::MkFresh,
+            "mk_fresh" => OpKind::MkFresh(0),
             "self_show" => OpKind::SelfShow,
             "self_tie" => OpKind::SelfTie,
             "read_via_param" => OpKind::ReadViaParam,
@@ -238,6 +244,7 @@ fn kind_from_json(v: &Value) -> OpKind {
         "compound" => OpKind::Compound(x[0].as_str().unwrap().to_string(), val_from_json(&x[1])),
         "same" => OpKind::SameCell(x[0].as_u64().unwrap() as usize, x[1].as_u64().unwrap() as usize),
         "self_set" => OpKind::SelfSet(val_from_json(x)),
+        "mk_fresh" => OpKind::MkFresh(x.as_u64().unwrap_or(0) as u8),
         "add_via_param" => OpKind::AddViaParam(x.as_i64().unwrap()),
         "attack" => OpKind::Attack(x.as_str().unwrap().to_string()),
         o => panic!("bad op kind {o}"),
@@ -424,7 +431,7 @@ impl Model {
                 self.iter_pos += 1;
                 Expect::Value(r)
             }
-            OpKind::MkFresh => Expect::Value(Val::Arr(vec![Val::Int(1), Val::Int(0), Val::Bool(false)])),
+            OpKind::MkFresh(_) => Expect::Value(Val::Arr(vec![Val::Int(1), Val::Int(0), Val::Bool(false)])),
             OpKind::SelfShow => Expect::Unchecked,
             OpKind::SelfSet(v) => Expect::Value(v.clone()),
             OpKind::SelfTie => Expect::Value(Val::Int(0)),
@@ -454,6 +461,9 @@ pub fn val_eq(m: &Val, v: &Variable) -> bool {
 pub struct GenCfg {
     /// concurrent mode: only operations that are a single atomic step on one cell
     pub concurrent: bool,
+    /// concurrent mode only: `cc` may be re-pointed while other threads go through `*cc`
+    /// (then only deadlock / panic / declared types are judged for the int cells)
+    pub repoint: bool,
     /// per-mille chance of a failing compound assignment
     pub fail_rate: u64,
     /// restrict to these cells (swarm); empty = all
@@ -485,7 +495,7 @@ pub fn gen_op(rng: &mut Rng, cfg: &GenCfg, unique: &mut i64) -> Op {
             };
         }
         if roll < 12 && !cfg.concurrent {
-            return Op { cell: 0, path: 0, kind: OpKind::MkFresh };
+            return Op { cell: 0, path: 0, kind: OpKind::MkFresh(rng.below(4) as u8) };
         }
         let cell = if cfg.cells.is_empty() { rng.below(CELLS.len()) } else { cfg.cells[rng.below(cfg.cells.len())] };
         let spec = &CELLS[cell];
@@ -511,13 +521,26 @@ pub fn gen_op(rng: &mut Rng, cfg: &GenCfg, unique: &mut i64) -> Op {
                             _ => OpKind::Compound("/".into(), Val::Int(0)),
                         }
                     } else {
+                        let neg = rng.chance(1, 4);
                         let operand = match op {
-                            "+" | "-" => next_unique(),
-                            "*" => 1 + rng.below(3) as i64,
-                            "/" | "%" => 2 + rng.below(5) as i64,
+                            "+" | "-" => {
+                                if neg {
+                                    -next_unique()
+                                } else {
+                                    next_unique()
+                                }
+                            }
+                            "*" => [1i64, 2, 3, 0, -1, -2][rng.below(6)],
+                            "/" | "%" => [2i64, 3, 5, 7, -2, -3, 1, -1][rng.below(8)],
                             "**" => rng.below(3) as i64,
-                            "<<" | ">>" => rng.below(3) as i64,
-                            _ => 1 + rng.below(255) as i64,
+                            "<<" | ">>" => [0i64, 1, 2, 3][rng.below(4)],
+                            _ => {
+                                if neg {
+                                    -(1 + rng.below(255) as i64)
+                                } else {
+                                    rng.below(256) as i64
+                                }
+                            }
                         };
                         OpKind::Compound(op.into(), Val::Int(operand))
                     }
@@ -596,8 +619,12 @@ pub fn gen_op(rng: &mut Rng, cfg: &GenCfg, unique: &mut i64) -> Op {
                 }
             },
             Kind::CellOfInt => {
-                if cfg.concurrent {
+                if cfg.concurrent && !cfg.repoint {
                     continue;
+                }
+                if cfg.concurrent {
+                    // re-point only; identity queries through a moving `*cc` have no stable answer
+                    return Op { cell, path: 0, kind: OpKind::Set(Val::Ref([0usize, 7, 8][rng.below(3)])) };
                 }
                 match k {
                     0..=59 => OpKind::Set(Val::Ref([0usize, 7, 8][rng.below(3)])),
